@@ -114,7 +114,11 @@ func (c *checker) finishTail() {
 				e = "stranded"
 			}
 		}
-		c.violate("C12", "probe-write-failed", c.tailEnd, "after the convergence budget the leader %s did not accept a write: %s", L.S, e)
+		sig := "probe-write-failed"
+		if b := c.brokenVoterOf(L.S); b != "" {
+			sig, e = "probe-write-failed-behind-unreplicated-user-restore", e+" (the leader needs voter "+b+", which is stuck behind its own unreplicated user restore)"
+		}
+		c.violate("C12", sig, c.tailEnd, "after the convergence budget the leader %s did not accept a write: %s", L.S, e)
 		return
 	}
 	c.cov("tail-probe-ok")
